@@ -13,6 +13,8 @@ package doh
 //@   ensures (result_0 != nil) != (result_1 != nil)
 //@   ensures result_0 != nil ==> len(*result_0) >= 12
 
+// chan struct{} (ctx.Done()) is a notification channel: never sent on, only closed.
+//@ chanmsg struct{} (v): false
 //@ chanmsg res (v) noclose: ((v.r != nil) != (v.err != nil)) && (v.r != nil ==> len(*v.r) >= 12)
 
 // ExchangeContext (C01): the query is copied, the id is zeroed on the copy only (RFC 8484 4.1),
